@@ -12,6 +12,7 @@ RULE = ('same structural lattice of 1-D spaces as C07; data = every unit vector 
         'or fast-path space')
 ASSUMPTIONS = ['tolerance 64*eps*||A^-1||_inf*(d+1)*||u||_inf with ||A^-1|| computed exactly', 'interpolation points are the ones the space advertises (basis.greville)']
 
+_HELD = []          # a complex interpolator kept from an earlier space of this process (see _check_1d)
 EPS = 2.220446049250313e-16
 
 
@@ -102,9 +103,29 @@ def _check_1d(desc, tier, V, st):
             if not (np.abs(gx - X ** k).max() <= t2):
                 V('polynomial-not-reproduced:' + cls, '%s: x^%d reproduced with error %.3g (tol %.3g)' % (key, k, np.abs(gx - X ** k).max(), t2))
     # complex data on clamped spaces
+    # a complex interpolator built for an EARLIER (other) space is used again now that further real and complex interpolators
+    # exist in this process: interpolators do not share anything that depends on the order or size of construction
+    if _HELD:
+        hkey, hitc, hbs, hS, hpts, hcond = _HELD[0]
+        try:
+            st['evals'] += 1
+            if nontriv:
+                st['nontrivial'] += 1
+            uh, vh = np.cos(hpts) + 0.5, np.sin(2 * hpts) - 0.25
+            sph = Spline1D(hbs, complex)
+            hitc.compute_interpolant((uh + 1j * vh).astype(complex), sph)
+            wanth = hS.coeffs(uh) + 1j * hS.coeffs(vh)
+            th = 64 * EPS * hcond * (hS.d + 1) * 1.5
+            if not (np.abs(np.asarray(sph.coeffs) - wanth).max() <= th):
+                V('complex-coefficients:earlier-interpolator-reused', 'complex interpolator of %s used again after interpolators for %s were built: coefficients off by %.3g' % (
+                    hkey, key, np.abs(np.asarray(sph.coeffs) - wanth).max()))
+        except Exception as e:  # noqa
+            V('complex-exception:earlier-interpolator-reused:%s' % type(e).__name__, '%s after %s: %s: %s' % (hkey, key, type(e).__name__, e))
     if not S.per:
         try:
             itc = SplineInterpolator1D(bs, dtype=complex)
+            if not _HELD or len(pts) < len(_HELD[0][4]):
+                _HELD[:] = [(key, itc, bs, S, pts, cond)]          # keep the smallest one seen: later spaces are larger
             for name, u, v in (('e0+i e1', np.eye(n)[0], np.eye(n)[min(1, n - 1)]), ('poly', pts ** min(d, 2), 1.0 - pts), ('dense', np.cos(pts), 2.5 * np.sin(3 * pts) - 1),
                                ('dense*1e-17', 1e-17 * np.cos(pts), 1e-17 * (2.5 * np.sin(3 * pts) - 1)), ('tiny-imaginary-part', np.cos(pts), 1e-16 * (2.5 * np.sin(3 * pts) - 1))):
                 st['evals'] += 1
